@@ -790,9 +790,16 @@ class Type3TagEmulation(nfc.tag.TagEmulation):
 
     def process_command(self, cmd):
         log.debug("cmd: %s", hexlify(cmd).decode() if cmd else str(cmd))
-        if len(cmd) != cmd[0]:
+        if len(cmd) == 0 or len(cmd) != cmd[0]:
             log.error("tt3 command length error")
             return None
+        try:
+            return self._process_command(cmd)
+        except IndexError:
+            log.error("tt3 command format error")
+            return None
+
+    def _process_command(self, cmd):
         if tuple(cmd[0:4]) in [(6, 0, 255, 255), (6, 0) + tuple(self.sys)]:
             log.debug("process 'polling' command")
             rsp = self.polling(cmd[2:])
